@@ -67,10 +67,12 @@ func (t *tlsOffloadingAuthenticator) intercept(srv interface{}, serverStream grp
 		return status.Error(codes.Unauthenticated, "TLS client certificate validation failed")
 	}
 
-	// Build TLS info and override in Peer info, which is set on the incoming context
-	peerInfo, _ := peer.FromContext(serverStream.Context())
-	if peerInfo == nil {
-		peerInfo = &peer.Peer{}
+	// Build TLS info and override in Peer info, which is set on the incoming context.
+	// The Peer on the incoming context is shared by all streams of the underlying connection (a proxy may multiplex streams
+	// of different clients on it), so it must not be modified: use a copy for this stream.
+	var peerInfo peer.Peer
+	if fromContext, ok := peer.FromContext(serverStream.Context()); ok && fromContext != nil {
+		peerInfo = *fromContext
 	}
 	peerInfo.AuthInfo = credentials.TLSInfo{
 		State: tls.ConnectionState{
@@ -80,7 +82,7 @@ func (t *tlsOffloadingAuthenticator) intercept(srv interface{}, serverStream grp
 			SecurityLevel: credentials.PrivacyAndIntegrity,
 		},
 	}
-	ctx := peer.NewContext(serverStream.Context(), peerInfo)
+	ctx := peer.NewContext(serverStream.Context(), &peerInfo)
 	return handler(srv, &wrappedServerStream{ctx: ctx, ServerStream: serverStream})
 }
 
